@@ -1,11 +1,26 @@
 """C12 - LLSD forms are faithful: messages over LLSD and the LLSD codecs round-trip"""
-from contracts import c12_native
+from contracts import c12_native, c12_contracts
 PID = "C12"
-META = {"level": "other", "explanation": "<filled in later by the framework owner>", "trusted_base": []}
+META = {
+    "level": "other",
+    "explanation": (
+        "P (proved on the real body of llsd._format_binary_recurse, scalar cases): the type tag written is the one LLSD assigns to the "
+        "value's type (None '!', bool '1'/'0', int 'i', real 'r', UUID 'u', binary 'b', uri 'l' - not 's' -, str 's', date 'd'), with "
+        "is_string/isinstance axioms for the llsd type lattice (uri is a str subclass). "
+        "B (bounded, NOT proved): all 481 templates through LLSDMessageSerializer dict and XML forms, event-queue injection, "
+        "LLSDDataPacker pairs against an independent statement of the packed form; generated LLSD trees (depth <= 4) through 10 codec "
+        "routes (binary with both headers / none / sniffed, zipped, streamed, notation, XML), dates in three process time zones, no raw "
+        "newline in notation. Upstream llsd date truncation recorded as a known finding."),
+    "trusted_base": [
+        "third-party llsd package (notation / XML parsers and formatters): exercised, not verified",
+        "struct.pack exact model; container cases (list / dict recursion) of the binary formatter: bounded tier only",
+        "isinstance lattice of llsd types stated as axioms (axiom group llsd_types)",
+    ],
+}
 
 
 def register(reg):
-    pass
+    c12_contracts.register_p(reg, PID)
 
 
 BOUNDED = [c12_native.bounded_llsd_messages, c12_native.bounded_llsd_codecs]
